@@ -69,6 +69,7 @@ def declared_ranges():
     """parameter name -> (min, max) as declared by the simulators (float Min/Max, first/last of an int AllowableRange)"""
     import sys
     out = {}
+    ints = []
     argv = sys.argv
     try:
         sys.argv = ['']
@@ -84,10 +85,13 @@ def declared_ranges():
                 ar = getattr(p, 'AllowableRange', None)
                 if isinstance(lo, (int, float)) and isinstance(hi, (int, float)):
                     out[name] = (float(lo), float(hi))
-                elif ar and all(isinstance(a, int) for a in (ar[0], ar[-1])):
+                elif ar and all(isinstance(a, int) for a in (ar[0], ar[-1])) and len(ar) > 3:
                     out[name] = (float(min(ar)), float(max(ar)))
+                    ints.append(name)
     finally:
         sys.argv = argv
+    # (excluded: parameters whose edges select very slow simulators - SBT, SUTRA - or multiply the run time a hundredfold)
+    out['__int__'] = sorted(set(ints) - {'Reservoir Model', 'Time steps per year', 'Closed-loop Configuration', 'Well Geometry Configuration'})
     return out
 
 
@@ -95,8 +99,17 @@ FACTORS = ['0.9', '1.1', '0.5', '2', 'min', 'max']
 
 
 def neighbour_tweak(cs, template, ranges):
-    """one parameter of the template moved: scaled, or put on the edge of its declared range"""
+    """one parameter of the template moved: scaled, put on the edge of its declared range, or - one time in three - an
+    integer-valued parameter (these drive table lengths, column widths and option switches) put on an edge of its
+    allowable range whether or not the template mentions it"""
     nums = template.get('numeric') or []
+    ints = ranges.get('__int__') or []
+    if template.get('kind') == 'geo' and ints and cs.choose(3, 'nkind') == 2:
+        name = ints[cs.choose(len(ints), 'nint')]
+        lo, hi = ranges[name]
+        which = cs.choose(4, 'nedge')
+        v = [hi, lo, hi - 1, lo + 1][which]
+        return (name, f'{v:.6g}')
     if not nums:
         return None
     name, v = nums[cs.choose(len(nums), 'nparam')]
@@ -108,8 +121,6 @@ def neighbour_tweak(cs, template, ranges):
         else:
             return (name, f'{r[0] if f == "min" else r[1]:.6g}')
     return (name, f'{v * float(f):.6g}')
-
-
 GEO_TWEAKS = [
     ('Plant Lifetime', ['25', '35']),
     ('Ambient Temperature', ['10', '20']),
